@@ -755,7 +755,7 @@ fn walfault_round(case_seed: u64, r: &mut Report, args: &Args) {
 
     let mut refused_writes = 0u64;
     let mut all_recs: Vec<Rec> = Vec::new();
-    let mut compare = |store: &TensorStore, when: &str, r: &mut Report| -> bool {
+    let compare = |store: &TensorStore, when: &str, r: &mut Report| -> bool {
         match crash_image_differs(store, &wal_path, &snap_path, &image_dir, &wcfg) {
             Ok(None) => {
                 r.count("walfault_crash_images_compared", 1);
@@ -907,8 +907,6 @@ fn walfault_round(case_seed: u64, r: &mut Report, args: &Args) {
     }
     // -- and the real thing: the store is dropped, the files themselves are recovered
     let live = view(&store);
-    drop(compare);
-    drop(registers);
     drop(store);
     match TensorStore::recover(&wal_path, &wcfg, Some(&snap_path)) {
         Ok(rec) => {
